@@ -281,7 +281,15 @@ def _flat_recursion(ctx, repo):
     fbm = {m.name: m.functions for m in repo.modules.values() if m.name.startswith(PARSER_LAYER)}
     if len(fbm) < 15:
         raise AnalysisError('R06p: only %d parser-layer modules found' % len(fbm))
-    cycles = class_call_cycles(fbm)
+    # only code that runs while parsing: a function with a token reader / walker / parsing-state parameter, or a
+    # method of a reader, collector or parser class (specification helpers that build tables are not per-token code)
+    def _parse_time(mname, q):
+        f_ = fbm[mname][q]
+        ps_ = {a_.arg for a_ in f_.args.args}
+        cls_ = q.rsplit('.', 1)[0] if '.' in q else ''
+        return bool(ps_ & {'token_reader', 'latex_walker', 'w', 'parsing_state', 'tok', 'token'}) or any(
+            k_ in cls_ for k_ in ('TokenReader', 'NodesCollector', 'Parser'))
+    cycles = [cyc for cyc in class_call_cycles(fbm) if any(_parse_time(c_[0], c_[1]) for c_ in cyc)]
     for cyc in cycles:
         mod_ = repo.mod(cyc[0][0])
         ctx.refuted('R06p', mod_, cyc[-1][2], 'call cycle inside the parser layer: %s -> %s: every token / comment / space '
@@ -668,6 +676,13 @@ def run(ctx):
                      'and TypeError or KeyError -- not a parse error -- escapes the tolerant parse (C17 P2, P4)', 4)
     from . import c17 as _c17
     _c17.run(_c05._filtered(_c05._Sub(ctx, 'R06o'), ('P2', 'P4')))
+
+    # ---- R06r (C11 R11e): recovery tokens keep the white space in front of them
+    ctx.rule('R06r', 'every token the reader builds -- the recovery placeholders of token errors included -- carries the pre_space '
+                     'its method was given: in tolerant mode the blank in front of a broken token stays part of the content '
+                     'before the error (C11 R11e)', 1)
+    from . import c11 as _c11
+    _core.run_proxied(ctx, _c11, 'R06r', ('R11e',))
 
     # ---- R06q: the opening-delimiter error carries the token it was raised for
     ctx.rule('R06q', 'every raise of LatexDelimitedExpressionParserOpeningDelimiterNotFound passes first_tokens with at least one '
